@@ -26,10 +26,37 @@ var entry32 = []string{"ReadFrom", "FromBuffer", "FromUnsafeBytes", "UnmarshalBi
 type c10Case struct {
 	Want   [][2]uint16 // when non-nil: the runs a spec-valid encoding holds; a successful decode must yield exactly them
 	Name   string
-	Data   []byte
+	Data   []byte // the input itself, or (Kind != 0) the valid stream the input is derived from, shared between cases
+	Kind   uint8  // 0 Data as is; 1 prefix Data[:Pos]; 2 suffix Data[Pos:]; 3 byte at Pos = Val; 4 u16 at Pos = Val; 5 u32 at Pos = Val
+	Pos    int
+	Val    uint32
 	Frozen bool
 	Prefix bool // proper prefix of a valid portable stream: must be rejected
 	Entry  int
+}
+
+// input materialises the case's bytes (a fresh slice unless Kind == 0): the damaged inputs of a seed share the seed's
+// stream, so that the case list of the thorough tier (close to a million cases) stays small in memory.
+func (c *c10Case) input() []byte {
+	switch c.Kind {
+	case 1:
+		return append([]byte(nil), c.Data[:c.Pos]...)
+	case 2:
+		return append([]byte(nil), c.Data[c.Pos:]...)
+	case 3:
+		d := append([]byte(nil), c.Data...)
+		d[c.Pos] = byte(c.Val)
+		return d
+	case 4:
+		d := append([]byte(nil), c.Data...)
+		binary.LittleEndian.PutUint16(d[c.Pos:], uint16(c.Val))
+		return d
+	case 5:
+		d := append([]byte(nil), c.Data...)
+		binary.LittleEndian.PutUint32(d[c.Pos:], c.Val)
+		return d
+	}
+	return c.Data
 }
 
 func c10Seeds() []shapes.Spec {
@@ -231,14 +258,14 @@ func buildC10(tier string) []c10Case {
 			if len(port) > 600 && k > 96 && k%61 != 0 && k < len(port)-6 {
 				continue
 			}
-			raw = append(raw, c10Case{Name: fmt.Sprintf("%s portable prefix %d/%d", name, k, len(port)), Data: append([]byte(nil), port[:k]...), Prefix: true})
+			raw = append(raw, c10Case{Name: fmt.Sprintf("%s portable prefix %d/%d", name, k, len(port)), Data: port, Kind: 1, Pos: k, Prefix: true})
 		}
 		for k := 0; k < len(froz); k++ {
 			if len(froz) > 600 && k > 32 && k%61 != 0 && k < len(froz)-40 {
 				continue
 			}
-			raw = append(raw, c10Case{Name: fmt.Sprintf("%s frozen prefix %d/%d", name, k, len(froz)), Data: append([]byte(nil), froz[:k]...), Frozen: true})
-			raw = append(raw, c10Case{Name: fmt.Sprintf("%s frozen suffix from %d/%d", name, k, len(froz)), Data: append([]byte(nil), froz[k:]...), Frozen: true})
+			raw = append(raw, c10Case{Name: fmt.Sprintf("%s frozen prefix %d/%d", name, k, len(froz)), Data: froz, Kind: 1, Pos: k, Frozen: true})
+			raw = append(raw, c10Case{Name: fmt.Sprintf("%s frozen suffix from %d/%d", name, k, len(froz)), Data: froz, Kind: 2, Pos: k, Frozen: true})
 		}
 		// (b) byte substitutions: header region fully, payload at boundaries
 		hdr := 8 + 9*len(sp.Chunks) + 6
@@ -250,9 +277,7 @@ func buildC10(tier string) []c10Case {
 				if v == port[pos] {
 					continue
 				}
-				d := append([]byte(nil), port...)
-				d[pos] = v
-				raw = append(raw, c10Case{Name: fmt.Sprintf("%s portable byte %d = %#x", name, pos, v), Data: d})
+				raw = append(raw, c10Case{Name: fmt.Sprintf("%s portable byte %d = %#x", name, pos, v), Data: port, Kind: 3, Pos: pos, Val: uint32(v)})
 			}
 		}
 		tail := 5*len(sp.Chunks) + 4 + 4
@@ -264,25 +289,19 @@ func buildC10(tier string) []c10Case {
 				if v == froz[pos] {
 					continue
 				}
-				d := append([]byte(nil), froz...)
-				d[pos] = v
-				raw = append(raw, c10Case{Name: fmt.Sprintf("%s frozen byte %d = %#x", name, pos, v), Data: d, Frozen: true})
+				raw = append(raw, c10Case{Name: fmt.Sprintf("%s frozen byte %d = %#x", name, pos, v), Data: froz, Kind: 3, Pos: pos, Val: uint32(v), Frozen: true})
 			}
 		}
 		// (c) 16 / 32 bit fields in the header region
 		for pos := 0; pos+2 <= len(port) && pos < hdr; pos += 2 {
 			o := binary.LittleEndian.Uint16(port[pos:])
 			for _, v := range []uint16{0, 1, 0xFFFF, 0xFFFE, 4095, 4096, 4097, o + 1, o - 1} {
-				d := append([]byte(nil), port...)
-				binary.LittleEndian.PutUint16(d[pos:], v)
-				raw = append(raw, c10Case{Name: fmt.Sprintf("%s portable u16@%d = %d", name, pos, v), Data: d})
+				raw = append(raw, c10Case{Name: fmt.Sprintf("%s portable u16@%d = %d", name, pos, v), Data: port, Kind: 4, Pos: pos, Val: uint32(v)})
 			}
 		}
 		for pos := 0; pos+4 <= len(port) && pos < hdr; pos += 4 {
 			for _, v := range []uint32{0, 1, 0xFFFFFFFF, uint32(len(port)), uint32(len(port)) + 1, uint32(len(port)) - 1, 65536, 65537, 0x80000000} {
-				d := append([]byte(nil), port...)
-				binary.LittleEndian.PutUint32(d[pos:], v)
-				raw = append(raw, c10Case{Name: fmt.Sprintf("%s portable u32@%d = %d", name, pos, v), Data: d})
+				raw = append(raw, c10Case{Name: fmt.Sprintf("%s portable u32@%d = %d", name, pos, v), Data: port, Kind: 5, Pos: pos, Val: v})
 			}
 		}
 	}
@@ -415,12 +434,13 @@ func c10Family(tier string) (int, func(id int) string) {
 			}
 		}()
 		// the input lives between guard pages (flush right, then flush left) and is read-only
+		in := c.input()
 		for _, right := range []bool{true, false} {
-			g := env.NewGuarded(len(c.Data), right)
-			copy(g.Data, c.Data)
+			g := env.NewGuarded(len(in), right)
+			copy(g.Data, in)
 			g.ReadOnly(true)
 			res := c10One(c, g.Data, &stage, right, tier == "thorough")
-			if !bytes.Equal(g.Data, c.Data) {
+			if !bytes.Equal(g.Data, in) {
 				res = "VIOL " + entry32[c.Entry] + " wrote to the caller's buffer [" + c.Name + "]"
 			}
 			g.Free()
